@@ -9,6 +9,9 @@
 #include <amgcl/mpi/util.hpp>
 #include <amgcl/mpi/distributed_matrix.hpp>
 #include <amgcl/mpi/inner_product.hpp>
+#include <complex>
+#include <amgcl/value_type/complex.hpp>
+#include <amgcl/value_type/static_matrix.hpp>
 #include "harness_main.hpp"
 
 const char *CHECK_ID = "C11";
@@ -89,7 +92,7 @@ Result execute(const Plan &p) {
     // a copy of A with a guaranteed non-zero diagonal (scaled spectral radius estimates)
     gen::Csr Adg; if (square) { gen::Builder bd(n, n); for (long i = 0; i < n; ++i) { double s = 0; for (ptrdiff_t j = A.ptr[i]; j < A.ptr[i+1]; ++j) { s += std::fabs(A.val[j]); if (A.col[j] != i) bd.set(i, A.col[j], A.val[j]); } bd.set(i, i, (double)(1 + ((long)s) % 7) * ((i % 3) ? 1.0 : -2.0)); } Adg = bd.finish(); }
     std::vector<double> y1(n, 0.0), y2(n, 0.0), rr(n, 0.0);
-    std::vector<double> ip(R, 0.0), gersh(R, 0.0), gershs(R, 0.0), power(R, 0.0);
+    std::vector<double> ip(R, 0.0), gersh(R, 0.0), gershs(R, 0.0), power(R, 0.0), ipc_re(R, 0.0), ipc_im(R, 0.0), ipb(R, 0.0);
     std::vector<long> grows(R, -1), gcols(R, -1), gnnz(R, -1);
     std::vector<std::string> fails(R);
     bool any_empty = false; for (int r = 0; r < R; ++r) if (rp[r+1] == rp[r]) any_empty = true;
@@ -162,6 +165,12 @@ Result execute(const Plan &p) {
         for (long i = r0; i < r1; ++i) { y1[i] = out1[i - r0]; y2[i] = out2[i - r0]; rr[i] = rl[i - r0]; }
         amgcl::mpi::inner_product dot(comm);
         ip[rank] = dot(yl, zl);
+        {   // complex and block vectors: conjugate-linear in the SECOND argument, as the serial kernel (integer parts: exact)
+            typedef std::complex<double> CX; typedef amgcl::static_matrix<double,2,1> RV;
+            std::vector<CX> yc(r1 - r0), zc(r1 - r0); std::vector<RV> yb(r1 - r0), zb(r1 - r0);
+            for (long i = r0; i < r1; ++i) { yc[i - r0] = CX(y0[i], z0[i]); zc[i - r0] = CX(z0[i], (double)((i % 5) - 2)); yb[i - r0](0) = y0[i]; yb[i - r0](1) = z0[i]; zb[i - r0](0) = z0[i]; zb[i - r0](1) = (double)((i % 5) - 2); }
+            CX c = dot(yc, zc); ipc_re[rank] = c.real(); ipc_im[rank] = c.imag(); ipb[rank] = dot(yb, zb);
+        }
     });
     res.absorb(out.sched); res.deviations = out.sched.deviations;
     res.faults["late_send_read"] += out.stats.late_reads; res.faults["late_read_changed_payload"] += out.stats.late_read_changed_payload; res.faults["recv_poison"] += out.stats.recv_poisoned;
@@ -195,6 +204,9 @@ Result execute(const Plan &p) {
             if (yk[i] != ax) { res.fail(sig("serial-equivalence", "spmv-kept-source", fmt("row %ld: %.17g, serial %.17g", i, yk[i], ax))); break; }
             if (rr[i] != z0[i] - ax3) { res.fail(sig("serial-equivalence", "residual", fmt("row %ld: %.17g, serial %.17g", i, rr[i], z0[i] - ax3))); break; } }
         double dot = 0; for (long i = 0; i < n; ++i) dot += y0[i] * z0[i];
+        { std::complex<double> dc(0, 0); double db = 0; for (long i = 0; i < n; ++i) { std::complex<double> a(y0[i], z0[i]), b(z0[i], (double)((i % 5) - 2)); dc += a * std::conj(b); db += y0[i] * z0[i] + z0[i] * (double)((i % 5) - 2); }
+          for (int r = 0; r < R; ++r) if (ipc_re[r] != dc.real() || ipc_im[r] != dc.imag()) { res.fail(sig("collective-scalars", "inner-product-complex", fmt("rank %d: %.17g%+.17gi, serial %.17g%+.17gi", r, ipc_re[r], ipc_im[r], dc.real(), dc.imag()))); break; }
+          for (int r = 0; r < R; ++r) if (ipb[r] != db) { res.fail(sig("collective-scalars", "inner-product-block-vectors", fmt("rank %d: %.17g, serial %.17g", r, ipb[r], db))); break; } }
         for (int r = 0; r < R; ++r) if (ip[r] != dot) { res.fail(sig("collective-scalars", "inner-product", fmt("rank %d: %.17g, serial %.17g", r, ip[r], dot))); break; }
         if (conformal && n > 0) {
             double want = 0; for (long i = 0; i < n; ++i) { double s = 0; for (ptrdiff_t j = A.ptr[i]; j < A.ptr[i+1]; ++j) s += std::fabs(A.val[j]); want = std::max(want, s); }
